@@ -49,6 +49,9 @@ func genC17(t *rapid.T) any {
 		comps = append(comps, "lz4")
 	}
 	c.Opts = mk.SqOpts{Comp: rapid.SampledFrom(comps).Draw(t, "comp")}
+	if c.Opts.Comp == "gzip" {
+		c.Opts.Level = rapid.SampledFrom([]int{6, 6, 1, 0}).Draw(t, "gzipLevel")
+	}
 	c.Opts.NoFragments = rapid.IntRange(0, 4).Draw(t, "nofrag") == 0
 	bs := int(c.BS)
 	nf := rapid.IntRange(3, 10).Draw(t, "nfiles")
